@@ -47,6 +47,17 @@ def position(p, e):
     return mm
 
 
+def position_skip(p, e):
+    """(marker, k): the position is k >= 0 bytes after a specification marker (used for tests such as "the byte after the next one is '/'")"""
+    try:
+        return position(p, e), 0
+    except Unhandled:
+        e = e if isinstance(e, Aff) else Aff({}, e)
+        if len(e.t) == 1 and list(e.t.values())[0] == 1 and 0 < e.c <= 4:
+            return position(p, Aff(dict(e.t), 0)), e.c
+        raise
+
+
 def pieces_of(p, splice, xnames=('x',)):
     """content of the splice as a list of ('lit', bytes) | ('x',)"""
     (b, s, e, n, content, line) = splice
@@ -148,8 +159,8 @@ class Builder:
         self._any_loop(n, b, ML)
         return self._det(n, a, [b], ML)
 
-    def c_after(self, ML, m, lit):
-        """text after position m starts with lit (zero-width markers may be interleaved)"""
+    def c_after(self, ML, m, lit, skip=0):
+        """text after position m (+ skip arbitrary bytes) starts with lit (zero-width markers may be interleaved)"""
         n = NFA()
         a = n.new()
         self._any_loop(n, a, ML)
@@ -160,6 +171,11 @@ class Builder:
             start = a
             v = 256 + ML.index(m)
             n.add(a, v, v, cur)
+        for _ in range(skip):
+            self._any_loop(n, cur, ML, markers_only=True)
+            nx = n.new()
+            n.add(cur, 0, 255, nx)
+            cur = nx
         for ch in lit:
             self._any_loop(n, cur, ML, markers_only=True)
             nx = n.new()
@@ -256,6 +272,8 @@ class Builder:
                 atom = atom[1]
                 pol = not pol
             k = atom[0]
+            if k in ('lls', 'fsc') and len(atom) > 1 and atom[1] == ('arg', 'PATH'):
+                atom = (k, ('comp', 'p'))        # a predicate of the handle's OWN (old) path text, not of the argument / the rebuilt content
             if k == 'has':
                 cons.append((self.c_has(ML, atom[1] + '+'), pol))
             elif k == 'lls' and atom[1] == ('comp', 'p'):
@@ -275,8 +293,8 @@ class Builder:
                 g = lang.predicate_dfa('is-empty', False)
                 X = intersect(X, g) if pol else difference(X, g)
             elif k == 'w_starts':
-                m = position(p, atom[1])
-                cons.append((self.c_after(ML, m, atom[2]), pol))
+                m, skip = position_skip(p, atom[1])
+                cons.append((self.c_after(ML, m, atom[2], skip), pol))
             elif k == 'cmp' and atom[1] in ('Eq', 'Ne') and isinstance(atom[3], Aff) and atom[3] == Aff():
                 m = position(p, atom[2])
                 cons.append((self.c_at0(ML, m), pol if atom[1] == 'Eq' else not pol))
@@ -320,12 +338,12 @@ class Builder:
                 atom = atom[1]
             if atom[0] == 'has':
                 ms.add(atom[1] + '+')
-            elif atom[0] in ('lls', 'fsc') and atom[1] == ('comp', 'p'):
+            elif atom[0] in ('lls', 'fsc') and atom[1] in (('comp', 'p'), ('arg', 'PATH')):
                 ms |= {'p+', 'p-'}
             elif atom[0] in ('p_in', 'p_ends') or (atom[0] == 'cmp' and (repr(atom[2]) in ('pend -pstart', 'pstart', 'pend'))):
                 ms |= {'p+', 'p-'}
             elif atom[0] == 'w_starts':
-                m = position(p, atom[1])
+                m, _skip = position_skip(p, atom[1])
                 if m not in ('BEGIN', 'END'):
                     ms.add(m)
             elif atom[0] == 'cmp' and isinstance(atom[2], Aff) and isinstance(atom[3], Aff) and atom[3] == Aff() and atom[1] in ('Eq', 'Ne'):
